@@ -35,6 +35,14 @@ def form_obs(f):
                       for p in f.pronunciations()]}
 
 
+def _try(fn):
+    import wn
+    try:
+        return fn()
+    except wn.Error as e:
+        return {'error': 'wn.Error'}
+
+
 def rel_obs(relation, target):
     return {'name': relation.name, 'source': relation.source_id, 'target': ekey(target),
             'lexicon': relation.lexicon().specifier(), 'meta': _meta(relation.metadata())}
@@ -79,8 +87,8 @@ def sense_obs(s, relations=True, nav=True):
         'meta': _meta(s.metadata()),
     }
     if nav:
-        o['word'] = ekey(s.word())
-        o['synset'] = ekey(s.synset())
+        o['word'] = _try(lambda: ekey(s.word()))
+        o['synset'] = _try(lambda: ekey(s.synset()))
     if relations:
         o['relations'] = {
             'senses': [rel_obs(r, t) for r, t in s._iter_sense_relations()],
